@@ -298,6 +298,12 @@ fn check_template(ctx: &Ctx, rep: &mut Report, n: u64, d: Dialect, tpl: &str, la
         let (p, v) = stmt.build_any(qb(d));
         (inline, p, v)
     });
+    // the statically dispatched `to_string` is an entry point of its own
+    let ts = guard(|| match d {
+        Dialect::Mysql => stmt.to_string(sea_query::MysqlQueryBuilder),
+        Dialect::Postgres => stmt.to_string(sea_query::PostgresQueryBuilder),
+        Dialect::Sqlite => stmt.to_string(sea_query::SqliteQueryBuilder),
+    });
     let kinds: std::collections::BTreeSet<&str> = labels.iter().copied().collect();
     let sig_kinds = kinds.iter().copied().filter(|k| !matches!(*k, "word" | "number" | "operator" | "space" | "comma" | "parens")).collect::<Vec<_>>().join("+");
     match got {
@@ -310,7 +316,16 @@ fn check_template(ctx: &Ctx, rep: &mut Report, n: u64, d: Dialect, tpl: &str, la
             n,
         ),
         Ok((inline, param, vals)) => {
-            if inline != want_inline {
+            if ts.as_deref() != Ok(want_inline.as_str()) && inline == want_inline {
+                rep.violation(
+                    "R.template.inline",
+                    d.name(),
+                    format!("to_string [{sig_kinds}]"),
+                    json!({"template": tpl, "expected": want_inline, "got_to_string": format!("{ts:?}")}),
+                    ctx.shard,
+                    n,
+                );
+            } else if inline != want_inline {
                 rep.violation(
                     "R.template.inline",
                     d.name(),
